@@ -107,8 +107,8 @@ def second_round(rnd, tier):
             return w(o1)
         try:
             tree = J.expr_to_E(prep())
-        except OverflowError:
-            continue
+        except Exception:
+            continue        # (OverflowError: out of range; anything else shows up in the main inputs, where it is judged)
         if J.size(tree) <= 80:
             out.append((tree, prep))
     return out
